@@ -1140,6 +1140,27 @@ func init() {
 		if tr.t == nil {
 			i.abort(outUnsupported, "http.Client.Do without a harness transport (real network is not modelled)")
 		}
+		if pt, ok := tr.t.(*types.Pointer); ok {
+			if nt, ok := pt.Elem().(*types.Named); ok && nt.Obj().Pkg() != nil && nt.Obj().Pkg().Path() == "net/http" && nt.Obj().Name() == "Transport" {
+				// a real *http.Transport (built by the code under test, e.g. from a store URL): the
+				// network behind it is whatever the harness registered in its variable verifNetwork
+				var hook iface
+				for _, path := range []string{desyncPath + "/cmd/desync", desyncPath} {
+					if p := i.prog.ImportedPackage(path); p != nil {
+						if g := p.Var("verifNetwork"); g != nil && i.globals[g] != nil {
+							if h, ok := (*i.globals[g]).(iface); ok && h.t != nil {
+								hook = h
+								break
+							}
+						}
+					}
+				}
+				if hook.t == nil {
+					i.abort(outUnsupported, "request through a real http.Transport and no verifNetwork registered by the harness")
+				}
+				tr = hook
+			}
+		}
 		m := i.findMethod(tr.t, "RoundTrip")
 		if m == nil {
 			i.abort(outUnsupported, "transport without RoundTrip")
